@@ -32,7 +32,7 @@ pub fn run(prop: &str, seed: u64, n: usize, outdir: &str) -> std::io::Result<()>
     for _ in 0..n {
         let sub = master.next();
         let mut rng = Rng(sub);
-        let go = GenOpts { force_space: true, allow_uncovered: false, with_user: 30, tie_heavy: false, malformed: false, many_ids: false };
+        let go = GenOpts { force_space: true, allow_uncovered: false, with_user: 30, tie_heavy: false, malformed: false, many_ids: prop == "BIG_C13" };
         let mut gd = gen_dict(&mut rng, &go);
         // costs small enough that 70000 tokens stay far inside i32 (the 32-bit restriction is c01_total's hypothesis)
         for r in gd.sys.iter_mut().chain(gd.unk.iter_mut()) { r.cost = r.cost.clamp(-100, 100); }
@@ -138,6 +138,12 @@ pub fn run(prop: &str, seed: u64, n: usize, outdir: &str) -> std::io::Result<()>
                 w.update_connid_counts();
                 let (ends, eos, _) = w.verif_lattice_dump();
                 let (lc, rc) = w.verif_counts().unwrap_or_default();
+                let tk = toks(&w);
+                // (the order is judged after the sentence was counted three more times and two short ones once: more than
+                // a million evaluations in total, ids with close counts)
+                for _ in 0..3 { w.reset_sentence(&sentence); w.tokenize(); w.update_connid_counts(); }
+                for s in [&base_short, &base_short] { w.reset_sentence(s); w.tokenize(); w.update_connid_counts(); }
+                let (lc2, rc2) = w.verif_counts().unwrap_or_default();
                 let mut el = vec![0usize; lc.len()];
                 let mut er = vec![0usize; rc.len()];
                 let preds = |sn: usize| -> Vec<usize> { if sn == 0 { vec![0] } else { ends.get(sn).map(|v| v.iter().map(|x| x[5] as usize).collect()).unwrap_or_default() } };
@@ -152,8 +158,7 @@ pub fn run(prop: &str, seed: u64, n: usize, outdir: &str) -> std::io::Result<()>
                     probs.iter().map(|x| x.0).collect::<Vec<_>>() == exp
                         && probs.iter().all(|x| (x.1 - cnt[x.0] as f64 / total as f64).abs() == 0.0 || total == 0)
                 };
-                let ordered = order_ok(&lp, &lc) && order_ok(&rp, &rc);
-                let tk = toks(&w);
+                let ordered = order_ok(&lp, &lc2) && order_ok(&rp, &rc2);
                 let tokens_are_nodes = tk.iter().all(|x| ends.get(x.1).map_or(false, |v| v.iter().any(|nd| nd[0] as usize <= x.0 && nd[1] as usize == x.0 && nd[4] as u16 == x.5 && nd[5] as u16 == x.6)));
                 (el == lc && er == rc, tokens_are_nodes, !tk.is_empty(), ordered)
             }));
